@@ -218,4 +218,11 @@ def instances(tier):
                                 uf=True, cover=["evaluated"], weight=10))
         for form in ("t1x2", "ct2x2x2"):
             out.append(Instance("C10", "c10:u_flat", dict(kind=kind, form=form), cover=["evaluated"], weight=5))
+    # "the sign of the lookup arguments is ignored": every law of every kind with a table, for vi of either sign
+    for kind in kinds:
+        if kind == "PMux":
+            continue
+        for form in ("t1x2", "ct2x2x2"):
+            out.append(Instance("C10", "c01:u_law", dict(kind=kind, form=form, phase="none", off="absent"), cover=["iin-evaluated"],
+                                weight=5 if "t2" in form else 1))
     return out, META
